@@ -9,7 +9,7 @@ from gen_programs import Gen, Scope
 
 PID = "C02"
 MANIFEST = {
-    "text": "18 Coq theorems.  'No effect on values' at full strength over the evaluator model: STORE-EXTENSION INVARIANCE "
+    "text": "19 Coq theorems.  'No effect on values' at full strength over the evaluator model: STORE-EXTENSION INVARIANCE "
             "(a simulation over every expression form, FunctionDef::call and every depth: evaluating from a store related "
             "by an injective renaming of function-cell indices gives the renamed outcome, scope chain and a related store; "
             "generic in operators/built-ins that commute with renamings, discharged arm by arm for the transcribed "
@@ -25,7 +25,10 @@ MANIFEST = {
             "to cell indices —, convert/round/random/to_number/to_string/join, sort_by/group_by/count_by) is now PROVED "
             "(C02_ops_commute_full_proved; proofs/RelPure.v: one relation-generic lemma per arm, proofs/C02OpsFull.v), so "
             "store-extension invariance, the eval-twice theorems and the head-context let-abstraction are also theorems "
-            "about the evaluator the EVAL streams run (the six *_full / *_fullbi theorems; 18 theorems in all).  "
+            "about the evaluator the EVAL streams run (the six *_full / *_fullbi theorems), and "
+            "C02_pure_builtins_blind_to_cells: each of the 32 pure arms of builtin_full maps argument vectors that are equal "
+            "after erasing cell indices (incl. [f, f] vs [f, f'] — no renaming relates those) to outcomes equal up to cell "
+            "indices, i.e. no built-in compares functions by identity.  "
             "Older theorems: purity of the scope chain, existing bindings "
             "untouched, store only grows.  PARTIAL by nature: determinism across processes, hash seeds and earlier "
             "evaluations is a property of the running code that no Gallina function can fail; it is decided by running "
